@@ -107,7 +107,7 @@ Proof. vm_compute. split; reflexivity. Qed.
 (* non-vacuity: a class 2 request for station 3 is answered with the queued user data *)
 Example C14_example :
   let c := {| alen := 1; single_ack := false; t_ack := 200; t_rep := 1000; t_ls := 5000 |} in
-  let v := {| fa := true; fb := true; fc_ := true; fd := true; fe := true; ff := true |} in
+  let v := {| fa := true; fb := true; fc_ := true; fd := true; fe := true; ff := true; fg := true; fh := true; fi := true |} in
   let s := su_with_q (su_init v 3 500) [] [[1; 2; 3]] in
   snd (su_run v c 1000 s [16; 123; 3; 126; 22]) =
   [ORx [16; 123; 3; 126; 22]; OLs (-1) 3; OTx [104; 5; 5; 104; 8; 3; 1; 2; 3; 17; 22]].
